@@ -5,8 +5,8 @@ CONSTANTS
   GenSeed <- MCTwins
   Entries <- MCEntries
   Random <- MCRandom
-  Seedable <- MCSeedRand
-  MaxOps = 7
+  Seedable <- MCSeedAll
+  MaxOps = 6
   Variant = "spec"
 INVARIANT TypeOK
 INVARIANT SameSeedSameResult
